@@ -7,6 +7,7 @@ use std::collections::HashMap;
 pub mod c01;
 pub mod c04;
 pub mod c06;
+pub mod c07;
 pub mod c08;
 pub mod c08_solve;
 pub mod c09;
@@ -38,6 +39,7 @@ pub fn registry() -> Vec<Check> {
         Check { id: "C04", run: c04::run, replay: c04::replay, worker: Some(c04::worker) },
         Check { id: "C05", run: c04::run, replay: c04::replay, worker: Some(c04::worker) },
         Check { id: "C06", run: c06::run, replay: c06::replay, worker: None },
+        Check { id: "C07", run: c07::run, replay: c07::replay, worker: Some(c07::worker) },
         Check { id: "C08", run: c08::run, replay: c08::replay, worker: None },
         Check { id: "C09", run: c09::run, replay: c09::replay, worker: None },
         Check { id: "C13", run: c13::run, replay: c13::replay, worker: None },
